@@ -7,10 +7,13 @@ import ScyllaVerif.Model.Codec
 import ScyllaVerif.Proofs.Vint
 import ScyllaVerif.Proofs.CodecEnc
 import ScyllaVerif.Proofs.CodecDec
+import ScyllaVerif.Proofs.CodecTotal
+import ScyllaVerif.Proofs.CarrierFactor
 
 namespace ScyllaVerif.Props.C01
 open ScyllaVerif.Vint ScyllaVerif.Cql ScyllaVerif.Codec
 open ScyllaVerif.Proofs
+open ScyllaVerif.TypedCarrier
 
 /-! ### vint / zig-zag (duration cells, length prefix of variable-width vector elements) -/
 
@@ -44,7 +47,7 @@ example : uvintEnc 0x4000 = [0xc0, 0x40, 0x00] ∧ vintEnc (BitVec.ofInt 64 (-3)
 /-! ### null, unset and empty cells -/
 
 /-- `Option::None` is the 4 bytes `ff ff ff ff` and `Unset` is `ff ff ff fe`, at every type — also when the
-writer does not write sizes (vector elements: finding F2, see `vector_null_counterexample`). -/
+writer does not write sizes (vector elements: finding C01-F2, see `carrier_counterexample`). -/
 theorem null_unset_cells (t : CqlTy) (ws : Bool) (buf : Bytes) :
     encImpl t .null ws buf = .ok (buf ++ [0xff, 0xff, 0xff, 0xff]) ∧
     encImpl t .unset ws buf = .ok (buf ++ [0xff, 0xff, 0xff, 0xfe]) := by
@@ -109,9 +112,9 @@ theorem encImpl_of_encSpec_ok (t : CqlTy) (v : CqlVal) (ws : Bool) (buf s : Byte
 
 /-- **Round trip (content level).**  (`_partial`: the full statement — every value that has the shape of
 the type — is false of the current tree, see the counterexamples at the end of the file; the domain here,
-`wfVal`, excludes exactly the shapes F1, F2, F8, F9 and types that are not CQL types.)  For every type, every value well-formed for it (`wfVal`: decidable —
-shape of the type, UTF-8 / ASCII text, `time` within a day, non-empty varint, and none of the shapes F1, F2,
-F8, F9 below), the content bytes the protocol defines decode to the value's normal form `pad t v`
+`wfVal`, excludes exactly the shapes C01-F1, C01-F2, C01-F9 and types that are not CQL types.)  For every type, every value well-formed for it (`wfVal`: decidable —
+shape of the type, UTF-8 / ASCII text, `time` within a day, non-empty varint, and none of the shapes C01-F1, C01-F2,
+C01-F9 below), the content bytes the protocol defines decode to the value's normal form `pad t v`
 (short tuples / UDTs padded with nulls, UDT fields in type order) — at every nesting depth; moreover the
 content is zero bytes long only for `empty` and the empty string / blob. -/
 theorem roundtrip_partial (u : Bytes → Bool) (t : CqlTy) (v : CqlVal) (body : Bytes)
@@ -142,6 +145,32 @@ theorem roundtrip_cell_partial (u : Bytes → Bool) (t : CqlTy) (v : CqlVal) (ce
     simp only [decBytes, CodecDec.readCqlBytes_cell body rest hlen, decCell]
     exact (CodecDec.rt u t v body hwf hb hl).1
 
+/-- **Encode totality.**  A well-formed value is never rejected for its shape: the specification (hence, by
+`encImpl_eq_encSpec`, the serializer) either produces bytes or fails for size only — a cell above `i32::MAX`
+bytes (`SizeOverflow`) or a collection above `i32::MAX` elements (`TooManyElements`). -/
+theorem encode_total (u : Bytes → Bool) (t : CqlTy) (v : CqlVal) (ws : Bool) (hw : wfVal u t v = true) :
+    (∃ s, encSpec t v ws = .ok s) ∨ encSpec t v ws = .error .sizeOverflow ∨
+      encSpec t v ws = .error .tooManyElements := by
+  have h := CodecTotal.tot u t v ws hw
+  cases hr : encSpec t v ws with
+  | ok s => exact .inl ⟨s, rfl⟩
+  | error e =>
+    rcases h e hr with rfl | rfl
+    · exact .inr (.inl rfl)
+    · exact .inr (.inr rfl)
+
+/-- Same through the real serializer, for any buffer. -/
+theorem encode_total_impl (u : Bytes → Bool) (t : CqlTy) (v : CqlVal) (buf : Bytes) (hw : wfVal u t v = true) :
+    (∃ s, encImpl t v true buf = .ok (buf ++ s)) ∨ encImpl t v true buf = .error .sizeOverflow ∨
+      encImpl t v true buf = .error .tooManyElements := by
+  have h := encode_total u t v true hw
+  have ha := encImpl_eq_encSpec t v true buf (by
+    rcases h with ⟨s, hs⟩ | hs | hs <;> rw [hs] <;> intro e <;> cases e)
+  rcases h with ⟨s, hs⟩ | hs | hs <;> rw [hs] at ha
+  · exact .inl ⟨s, ha⟩
+  · exact .inr (.inl ha)
+  · exact .inr (.inr ha)
+
 -- non-vacuity: `map<text, tuple<int, list<vector<text,2>>>>` with a null tuple field and a short tuple
 set_option maxRecDepth 100000 in
 example :
@@ -151,6 +180,43 @@ example :
     pad t v = .map [(.text [0x61, 0x62], .tuple [.null, .list [.vector [.text [0x61], .text [0x62, 0x63]]], .null])] ∧
     (∃ cell, encSpec t v true = .ok cell ∧ decBytes (fun _ => true) t cell = .ok (pad t v)) := by
   refine ⟨by rfl, by rfl, _, rfl, by rfl⟩
+
+/-! ### typed Rust carriers -/
+
+/-- **Carrier factorisation (serialization).**  For every typed carrier `c` (scalars, `Option`, `MaybeUnset`,
+`MaybeEmpty`, `Vec`, set and map types, tuples, `CqlValue`, arbitrarily nested), every Rust value `x` of that
+type and every CQL type `t` compatible with it, the carrier's own `SerializeValue` impl writes exactly what the
+dynamic serializer writes for the embedding `embed c x` — so every typed representation inherits
+`encImpl_eq_encSpec`, `encode_total` and the round trip of its embedding.  `compat` excludes only the two
+places where the typed impls answer differently *by design* (examples below): `MaybeEmpty` bound to a type
+without an empty value, and a set carrier bound to a vector type. -/
+theorem carrier_factor (c : Carrier) (t : CqlTy) (x : RustVal) (ws : Bool) (buf : Bytes)
+    (hwt : wtVal c x = true) (hc : compat c t = true) :
+    serCarrier c t x ws buf = encImpl t (embed c x) ws buf :=
+  CarrierFactor.factor c t x ws buf hwt hc
+
+/-- … hence the typed impl appends exactly the protocol bytes of the embedding, whenever those are defined. -/
+theorem carrier_factor_spec (c : Carrier) (t : CqlTy) (x : RustVal) (ws : Bool) (buf s : Bytes)
+    (hwt : wtVal c x = true) (hc : compat c t = true) (hs : encSpec t (embed c x) ws = .ok s) :
+    serCarrier c t x ws buf = .ok (buf ++ s) := by
+  rw [carrier_factor c t x ws buf hwt hc, encImpl_of_encSpec_ok t _ ws buf s hs]
+
+-- non-vacuity and the two designed differences
+set_option maxRecDepth 100000 in
+example :
+    let c : Carrier := .tuple [.opt .i32, .vec (.map .string (.opt .f64))]
+    let t : CqlTy := .tuple [.native .int, .list (.map (.native .text) (.native .double)), .native .uuid]
+    let x : RustVal := .tuple [.none, .seq [.pairs [(.string [0x61], .some (.f64 0x3ff0000000000000))]]]
+    wtVal c x = true ∧ compat c t = true ∧
+    serCarrier c t x true [] = .ok [0, 0, 0, 0x25, 0xff, 0xff, 0xff, 0xff, 0, 0, 0, 0x1d, 0, 0, 0, 1, 0, 0, 0, 0x15,
+      0, 0, 0, 1, 0, 0, 0, 1, 0x61, 0, 0, 0, 8, 0x3f, 0xf0, 0, 0, 0, 0, 0, 0] := by
+  refine ⟨by rfl, by rfl, by rfl⟩
+
+example : serCarrier (.maybeEmpty .i32) (.native .counter) (.value (.i32 5)) true [] = .error .notEmptyable ∧
+    encImpl (.native .counter) (embed (.maybeEmpty .i32) (.value (.i32 5))) true [] = .error .mismatchedType ∧
+    serCarrier (.set .i32) (.vector (.native .int) 1) (.seq [.i32 5]) true [] = .error .notSetOrList ∧
+    encImpl (.vector (.native .int) 1) (embed (.set .i32) (.seq [.i32 5])) true [] = .ok [0, 0, 0, 4, 0, 0, 0, 5] := by
+  refine ⟨by rfl, by rfl, by rfl, by rfl⟩
 
 /-! ### size overflow (error branch) -/
 
@@ -177,7 +243,7 @@ theorem size_overflow_blob (b buf : Bytes) :
 
 example : setValue true [1, 2, 3] [9] = .ok [9, 0, 0, 0, 3, 1, 2, 3] := by rfl
 
-/-! ### the four shapes on which the current tree does NOT round-trip (known findings)
+/-! ### the three shapes on which the current tree does NOT round-trip (known findings)
 
 Full statement of the property (false of the current code, kept here on purpose):
 
@@ -185,17 +251,18 @@ Full statement of the property (false of the current code, kept here on purpose)
       "v has the shape of t (short tuples / UDTs allowed, nulls in fields, any element)" →
       encImpl t v true [] = .ok cell → decBytes u t cell = .ok (pad t v)
   theorem carrier_factor_full : every typed carrier value x, embedded as v, satisfies
-      encImpl t v true [] = (encSpec t v true)          -- including `Vec<Option<T>>` bound to a vector
+      serCarrier c t x true [] = (encSpec t v true)      -- including `Vec<Option<T>>` bound to a vector
+  (`carrier_factor` holds for it — the typed impl IS the dynamic one — but `encSpec` is undefined there: C01-F2)
 
-The proved statements are `roundtrip_partial` / `roundtrip_cell_partial` above, on the domain `wfVal`, which excludes exactly the shapes F1, F2,
-F8, F9 (plus degenerate types that are not CQL types).  Their witnesses, replayed on the real code by
+The proved statements are `roundtrip_partial` / `roundtrip_cell_partial` above, on the domain `wfVal`, which excludes exactly the shapes C01-F1,
+C01-F2, C01-F9 (plus degenerate types that are not CQL types).  Their witnesses, replayed on the real code by
 `corpus/C01/known_findings.case`: -/
 
 def allUtf8 : Bytes → Bool := fun _ => true
 
 set_option maxRecDepth 100000
 
-/-- **F1.** `CqlValue::Tuple(vec![])` bound to `tuple<int,int>` is written as the zero-length cell
+/-- **C01-F1.** `CqlValue::Tuple(vec![])` bound to `tuple<int,int>` is written as the zero-length cell
 `00 00 00 00`, which decodes to `Empty`, not to the padded `Tuple([None, None])`. -/
 theorem roundtrip_counterexample :
     encImpl (.tuple [.native .int, .native .int]) (.tuple []) true [] = .ok [0, 0, 0, 0] ∧
@@ -203,7 +270,7 @@ theorem roundtrip_counterexample :
     pad (.tuple [.native .int, .native .int]) (.tuple []) = .tuple [.null, .null] := by
   refine ⟨by rfl, by rfl, by rfl⟩
 
-/-- **F2.** `vec![None, Some(5)] : Vec<Option<i32>>` bound to `vector<int,2>`: the null is written as the
+/-- **C01-F2.** `vec![None, Some(5)] : Vec<Option<i32>>` bound to `vector<int,2>`: the null is written as the
 raw bytes `ff ff ff ff` (`set_null` ignores `write_size`); the protocol has no encoding for it
 (`encSpec` = `bareNullInVector`), and the bytes read back as `[-1, 5]`. -/
 theorem carrier_counterexample :
@@ -214,15 +281,15 @@ theorem carrier_counterexample :
       .ok (.vector [.int 0xffffffff, .int 5]) := by
   refine ⟨by rfl, by rfl, by rfl⟩
 
-/-- **F8.** `CqlValue::Vector([Text("a"), Text("")])` bound to `vector<text,2>` is written correctly as
-`01 61 00`, but the decoder reads the trailing zero-length element as null (`read_n_bytes` answers `None` on
-an empty slice) and fails with `ExpectedNonNull`. -/
-theorem vector_trailing_empty_counterexample :
+/-- **C01-F8, repaired** (/repo 808d80c): `CqlValue::Vector([Text("a"), Text("")])` bound to `vector<text,2>`
+(`01 61 00`) now reads back; kept as a regression example (it used to fail with `ExpectedNonNull`). -/
+example :
     encImpl (.vector (.native .text) 2) (.vector [.text [0x61], .text []]) true [] = .ok [0, 0, 0, 3, 1, 0x61, 0] ∧
-    decBytes allUtf8 (.vector (.native .text) 2) [0, 0, 0, 3, 1, 0x61, 0] = .error .expectedNonNull := by
-  refine ⟨by rfl, by rfl⟩
+    decBytes allUtf8 (.vector (.native .text) 2) [0, 0, 0, 3, 1, 0x61, 0] = .ok (.vector [.text [0x61], .text []]) ∧
+    wfVal allUtf8 (.vector (.native .text) 2) (.vector [.text [0x61], .text []]) = true := by
+  refine ⟨by rfl, by rfl, by rfl⟩
 
-/-- **F9.** `CqlValue::Vector([Empty, Int(5)])` bound to `vector<int,2>` is accepted and the `Empty` element
+/-- **C01-F9.** `CqlValue::Vector([Empty, Int(5)])` bound to `vector<int,2>` is accepted and the `Empty` element
 is written as nothing: a 4-byte `vector<int,2>` that does not decode. -/
 theorem vector_empty_element_counterexample :
     encImpl (.vector (.native .int) 2) (.vector [.empty, .int 5]) true [] = .ok [0, 0, 0, 4, 0, 0, 0, 5] ∧
